@@ -12,10 +12,28 @@ import (
 type BulkCfg struct {
 	MaxNH, MaxNHG, MaxTop, MaxHops int
 	Churn                          int // number of replace/delete operations after the build-up
+	// BuildOnly: only the build-up (no churn, flush or delete-everything epilogue).
+	BuildOnly bool
 }
 
 // DefaultBulk is sized so that one history stays in the tens of milliseconds.
-func DefaultBulk() BulkCfg { return BulkCfg{MaxNH: 40, MaxNHG: 24, MaxTop: 120, MaxHops: 16, Churn: 40} }
+func DefaultBulk() BulkCfg { return BulkCfg{MaxNH: 72, MaxNHG: 40, MaxTop: 130, MaxHops: 16, Churn: 40} }
+
+// scale draws a count in [lo, max]: a third of the time from the top fifth of the
+// range (limits sit there), otherwise anywhere.
+func scale(t *rapid.T, lo, max int, label string) int {
+	if max <= lo {
+		return lo
+	}
+	if pct(t, 33, label+"-top?") {
+		l := max - max/5
+		if l < lo {
+			l = lo
+		}
+		return rapid.IntRange(l, max).Draw(t, label)
+	}
+	return rapid.IntRange(lo, max).Draw(t, label)
+}
 
 // DrawBulk draws a history at a scale the small colliding universe never
 // reaches: dozens of next-hops, groups with many members, a hundred-odd
@@ -28,9 +46,14 @@ func DefaultBulk() BulkCfg { return BulkCfg{MaxNH: 40, MaxNHG: 24, MaxTop: 120, 
 func DrawBulk(t *rapid.T, cfg BulkCfg) History {
 	h := History{FwdRefs: rapid.IntRange(0, 3).Draw(t, "fwdrefs") != 0}
 	base := []uint64{0, 0, 1<<32 - 5, 1 << 63, 1<<64 - 200}[rapid.IntRange(0, 4).Draw(t, "idbase")]
-	nNH := rapid.IntRange(2, cfg.MaxNH).Draw(t, "nnh")
-	nNHG := rapid.IntRange(1, cfg.MaxNHG).Draw(t, "nnhg")
-	nTop := rapid.IntRange(10, cfg.MaxTop).Draw(t, "ntop")
+	nNH := scale(t, 2, cfg.MaxNH, "nnh")
+	nNHG := scale(t, 1, cfg.MaxNHG, "nnhg")
+	nTop := scale(t, 10, cfg.MaxTop, "ntop")
+	// sometimes nearly everything lives in one network instance (per-instance limits)
+	niW := []int{70, 20, 10}
+	if pct(t, 40, "concentrate") {
+		niW = []int{96, 2, 2}
+	}
 	id := uint64(0)
 	mk := func(o *gen.Op) Step {
 		id++
@@ -44,7 +67,7 @@ func DrawBulk(t *rapid.T, cfg BulkCfg) History {
 	var nhs, nhgs []ref
 	var build []Step
 	for i := 0; i < nNH; i++ {
-		ni := NIs[weighted(t, []int{70, 20, 10}, "nhni")]
+		ni := NIs[weighted(t, niW, "nhni")]
 		k := base + uint64(i) + 1
 		nhs = append(nhs, ref{ni, k})
 		o := &gen.Op{NI: ni, Kind: gen.NH, Act: gen.ADD, Key: fmt.Sprint(k), IP: fmt.Sprintf("192.0.2.%d", i%250+1)}
@@ -63,7 +86,7 @@ func DrawBulk(t *rapid.T, cfg BulkCfg) History {
 		byNI[n.ni] = append(byNI[n.ni], n.key)
 	}
 	for i := 0; i < nNHG; i++ {
-		ni := NIs[weighted(t, []int{70, 20, 10}, "nhgni")]
+		ni := NIs[weighted(t, niW, "nhgni")]
 		pool := byNI[ni]
 		if len(pool) == 0 {
 			ni, pool = nhs[0].ni, byNI[nhs[0].ni]
@@ -129,6 +152,9 @@ func DrawBulk(t *rapid.T, cfg BulkCfg) History {
 		}
 	}
 	h.Steps = append(h.Steps, build...)
+	if cfg.BuildOnly {
+		return h
+	}
 	// churn
 	nch := rapid.IntRange(0, cfg.Churn).Draw(t, "churn")
 	flushAt := -1
